@@ -43,6 +43,9 @@ type access struct {
 var raceScopeTypes = []string{"GoBackNConn", "config", "queue", "queueCfg", "syncer", "TimeoutManager", "TimeoutBooster", "IntervalAwareForceTicker"}
 
 func runC18(c *Checker) {
+	// the ticker's reset/stop protocol (close quit, wait for the goroutine, restart) is only free of
+	// self-deadlock if the goroutine can always see quit: its shape rules (TICK, as C13) belong here
+	ruleTICK(c)
 	w := c.w
 	scope := map[*types.Named]bool{}
 	for _, n := range raceScopeTypes {
